@@ -1,6 +1,7 @@
 import NeumannModel.Common.Proto
 import NeumannModel.TwoPC.Model
 import NeumannModel.TwoPC.Recovery
+import NeumannModel.TwoPC.VoteSplit
 /-
   Line-protocol driver for the 2PC model (C03).  State = one `Sys`.
     init <nshards> <txTimeout> <maxConcurrent> <lockTimeout>
@@ -13,6 +14,8 @@ import NeumannModel.TwoPC.Recovery
     forge <tx> <sh> <y<h>:<k.k>|n|c<tx>>                   (a vote no participant produced joins the pool)
     stale <sh> <timeout> | recover <sh> <timeout>          (outside the property's alphabet)
     cvote <tx> <sh> <y<h>:<k.k>|n|c<tx>> [sim]             (coordinator-level record_vote)
+    race <tx> <shA> <voteA> <shB> <voteB> <sim>            (thread B's whole record_vote between the two critical
+                                                            sections of thread A's; answer `race <B's result> / <A's result>`)
     crecover | ccomplete_commit <tx> | ccomplete_abort <tx> | cforce <tx> <0|1>
                                                            (coordinator recovery API, Recovery.lean; outside the alphabet)
     dump
@@ -248,6 +251,19 @@ def twopcStep (s : Sys) (line : String) : Sys × String :=
         let s' := s.drain r.1
         (s', s!"{showRes (.voted r.2)} | {" ".intercalate ((s'.msgs.drop s.msgs.length).map showMsg)}")
     | _, _, _, _ => bad
+  | ["race", t, shA, vA, shB, vB, sim] =>
+    match t.toNat?, shA.toNat?, parseVote vA, shB.toNat?, parseVote vB, parsePairs sim with
+    | some t, some shA, some vA, some shB, some vB, some sm =>
+      let nonOrth := fun i j => sm.contains (i, j) || sm.contains (j, i)
+      match s.coord.recordVoteInterleaved t shA vA shB vB nonOrth with
+      | none => (s, "race no-window |")
+      | some (c, rB, rA) =>
+        let s' := s.drain c
+        let b := match rB with
+          | .ok r => showRes (.voted r)
+          | .error e => s!"verr {showVoteErr e}"
+        (s', s!"race {b} / {showRes (.voted rA)} | {" ".intercalate ((s'.msgs.drop s.msgs.length).map showMsg)}")
+    | _, _, _, _, _, _ => bad
   | ["crecover"] =>
     let st := (s.coord.recover s.now).2
     let s' := s.stepX .coordRecover
